@@ -593,6 +593,52 @@ func RuleKScopeFirst(c *core.Ctx) {
 			}
 			return nil
 		}
+		// scope variables of the function, wherever they are declared
+		var scopeAllocs []*ssa.Alloc
+		core.EachInstr(fn, func(ins ssa.Instruction) {
+			if al, ok := ins.(*ssa.Alloc); ok && isNamed(al.Type().Underlying().(*types.Pointer).Elem(), scopeT) {
+				// a parameter spilled to a local is the caller's scope
+				own := false
+				for _, st := range core.StoresTo(al) {
+					if _, isPrm := st.Val.(*ssa.Parameter); !isPrm {
+						own = true
+					}
+				}
+				if own {
+					scopeAllocs = append(scopeAllocs, al)
+				}
+			}
+		})
+		anyTop := false
+		for _, al := range scopeAllocs {
+			for _, st := range core.StoresTo(al) {
+				if st.Block() == fn.Blocks[0] && isScopeCall(st.Val) != nil && reachedByConsumption(isScopeCall(st.Val)) == nil {
+					anyTop = true
+				}
+			}
+		}
+		if len(scopeAllocs) > 0 && !anyTop {
+			// the function opens scopes, but none before it starts consuming: if one of
+			// them yields a range that the function returns, text lies outside the node
+			for _, al := range scopeAllocs {
+				usedForRange := false
+				if al.Referrers() != nil {
+					for _, r := range *al.Referrers() {
+						if call, ok := r.(*ssa.Call); ok {
+							if callee := call.Call.StaticCallee(); callee != nil && callee.Name() == "Range" {
+								usedForRange = true
+							}
+						}
+					}
+				}
+				if !usedForRange {
+					continue
+				}
+				n++
+				key := fmt.Sprintf("%s:top scope %s is opened before anything is consumed", core.FuncName(fn), al.Comment)
+				c.Ob(rule, key, al.Pos(), core.FuncName(fn), core.Violated, "the scope that yields this function's node range is not opened in the function's first block before every consuming call: text consumed before it lies outside the node, the tree does not cover the text")
+			}
+		}
 		for _, ins := range fn.Blocks[0].Instrs {
 			al, ok := ins.(*ssa.Alloc)
 			if !ok || !isNamed(al.Type().Underlying().(*types.Pointer).Elem(), scopeT) {
